@@ -209,8 +209,8 @@ def monitor(case, out):
     H = {}           # id -> dict(fd, poll, req, active, closed, linger)
     internal = None
     info = {"cbs": 0, "nontrivial": False, "shape": [], "ebadf": 0, "disarm": 0, "eexist": 0, "inval": 0,
-            "big": 0, "repoll": 0, "blocks": 0, "api_errors": 0, "stream_cbs": 0, "lowfd_ops": 0}
-    cur_op = None; pend_new = None; op_ctl_ok = []; last_ki = None; op_failed = False; pend_stop = set()
+            "big": 0, "repoll": 0, "blocks": 0, "api_errors": 0, "stream_cbs": 0, "lowfd_ops": 0, "known_del": []}
+    cur_op = None; pend_new = None; op_ctl_ok = []; last_ki = None; op_failed = False; pend_stop = set(); multi = False; damaged = set()
     batch = None; batch_real = False; dirty = set(); expected = {}; in_run = False; run_real = False
     fed = set(); last_ready = None
     runs = [c.split()[1] for c in case if c.startswith("run")]
@@ -241,7 +241,7 @@ def monitor(case, out):
             for i in pend_stop: H[i]["req"] = 0
             pend_stop.clear()
         if w[0] == "cfg":
-            internal = int(l.split("internal=")[1].split()[0]); continue
+            internal = int(l.split("internal=")[1].split()[0]); multi = "multi=1" in l; continue
         if w[0] == "#ready":
             last_ready = (int(w[1]), int(w[2]), int(w[3])); continue
         if w[0] == "#ki":
@@ -250,6 +250,14 @@ def monitor(case, out):
                 raise Bad("failed-call-modified-interest",
                           f"`{' '.join(cur_op)}` was refused/failed but the kernel interest list changed: [{last_ki}] -> [{ki}]")
             last_ki = ki; op_failed = False
+            continue
+        if w[0] == "#reg":
+            if not pend_stop:
+                reg = dict((int(a), int(b)) for a, b in (x.split(":") for x in w[1:]))
+                want = {f: hl[0][0] for f, hl in watched().items()}
+                if reg != want:
+                    raise Bad("registry-mismatch", f"after `{' '.join(cur_op or [])}`: loop->watchers maps {reg} but the handles "
+                              f"that are started and not stopped/closed are {want} (fd: handle)")
             continue
         if w[0] == "#baddata":
             raise Bad("interest-data-mismatch", f"kernel entry of fd {w[1]} carries epoll_event.data {w[2]} instead of the descriptor number")
@@ -282,6 +290,7 @@ def monitor(case, out):
             if o in ("pstart", "pstop", "pclose", "iostart", "iostop", "ioclose", "iofeed", "sstart", "sstop", "sclose") and r == 0:
                 i = int(cur_op[1]); h = H.get(i)
                 if h is None: raise Bad("harness-inconsistent", f"op on unknown id accepted: {cur_op}")
+                if o in ("pstart", "iostart", "sstart"): damaged.discard(h["fd"])
                 if o == "pstart":
                     h["req"] = int(cur_op[2]) & 15; h["active"] = h["req"] != 0; h["linger"] = False
                 elif o == "pstop": h["active"] = False; h["linger"] = False
@@ -296,6 +305,13 @@ def monitor(case, out):
         if w[0] == "env" and w[1] == "epoll_ctl":
             if int(w[3]) < 4: info["lowfd_ops"] += 1
             if w[-1] == "0": op_ctl_ok.append(" ".join(w[2:5])); last_ki = None
+            if multi and w[2] == "DEL" and w[-1] == "0" and cur_op and cur_op[0] in ("pstop", "pclose", "pstart", "ioclose", "sclose"):
+                # kept finding, narrow form: a handle that is not the watched one on this descriptor number issues the
+                # kernel EPOLL_CTL_DEL and thereby removes the entry of the handle that is
+                a_id = int(cur_op[1]); f = int(w[3])
+                owner = [i for i, m in watched().get(f, [])]
+                if owner and owner[0] != a_id:
+                    damaged.add(f); info["known_del"].append((a_id, owner[0], f))
             if w[2] == "DEL" and in_run and batch is not None and w[-1] == "0": info["disarm"] += 1
             if w[-1] == "-17": info["eexist"] += 1
             continue
@@ -311,6 +327,7 @@ def monitor(case, out):
                 for f, m in ents: byfd.setdefault(f, []).append(m)
                 for f, hl in wt.items():
                     if len(hl) != 1: raise Bad("harness-inconsistent", f"two watched handles on fd {f}")
+                    if f in damaged and f not in byfd: continue      # consequence of the kept finding (see known_del)
                     if byfd.get(f) != [hl[0][1]]:
                         raise Bad("interest-mismatch", f"about to block: fd {f} watched by handle {hl[0][0]} with mask "
                                   f"{hl[0][1]} but the kernel interest list has {byfd.get(f)}")
@@ -548,6 +565,45 @@ def gen_long_ring_case(rng, ring=1, target_ops=None):
     return c
 
 
+def gen_multi_case(rng):
+    """discipline off (multi=1): a stopped / never-started handle A and an active handle B on the same descriptor
+    number - after close + re-use of the number, or both initialised on one socket - then stop/close of A again, then
+    readiness on B.  On the unmodified tree these hit the kept finding (A's EPOLL_CTL_DEL); libuv's own registry
+    (loop->watchers, nfds) must stay intact all the same."""
+    ring = rng.below(2)
+    f = rng.choice([100, 101, 3, 0])
+    c = [f"cfg ring={ring} multi=1", "openfd 100 0", "pinit 100", f"pstart 0 {rng.choice([1, 2, 3])}"]   # id 0 sizes the table
+    nid = 1
+    if f != 100: c.append(f"openfd {f} {rng.choice([0, 0, 1, 3])}")
+    akind = rng.choice(["p", "p", "r"])
+    if rng.below(2):
+        # X: A used, stopped, number closed and re-used, B started on it
+        c.append(("pinit" if akind == "p" else "ioinit") + f" {f}"); a = nid; nid += 1
+        if f == 100: c.append("pstop 0")
+        c.append(f"pstart {a} 1" if akind == "p" else f"iostart {a} 1")
+        if rng.below(2): c.append("run R")
+        c.append(f"pstop {a}" if akind == "p" else f"iostop {a} {ALL4}")
+        # (a raw watcher's entry lingers after a full stop: with a dup kept open, closing the number would strand it -
+        #  that is the other kept finding's family, not this class)
+        if akind == "p" and rng.below(2): c.append(f"dupfd {f}")
+        c += [f"closefd {f}", f"openfd {f} {rng.choice([0, 0, 1])}"]
+    else:
+        # Y: both initialised on one socket; A possibly started and stopped once
+        c.append(("pinit" if akind == "p" else "ioinit") + f" {f}"); a = nid; nid += 1
+        if f == 100: c.append("pstop 0")
+        if rng.below(2):
+            c += [f"pstart {a} 1" if akind == "p" else f"iostart {a} 1"] + (["run R"] if rng.below(2) else []) + \
+                 [f"pstop {a}" if akind == "p" else f"iostop {a} {ALL4}"]
+    c.append(f"pinit {f}"); b = nid; nid += 1
+    c.append(f"pstart {b} {rng.choice([1, 3, 5])}")
+    if rng.below(3): c.append("run R")
+    # A, idle, is stopped / closed (again)
+    c.append(rng.choice([f"pstop {a}", f"pclose {a}", f"pclose {a}"]) if akind == "p" else rng.choice([f"iostop {a} {ALL4}", f"ioclose {a}"]))
+    c += [f"peer 1 {f}", "run R", "run R"]
+    if rng.below(2): c += [f"pstart {b} 1", f"peer 1 {f}", "run R"]
+    return c
+
+
 def many_fds_case(ring, n=270):
     """more than 256 queued watchers: the ctl ring fills and is flushed inside uv__epoll_ctl_prep"""
     c = [f"cfg ring={ring}", "on 0 0 pclose 5 ; pstop 7"]
@@ -583,14 +639,47 @@ def run(ctx):
     # suspected defects found while building this check (model agrees with the code; the discipline switch
     # multi=1 is needed to reach them).  They are replayed only when known_findings.txt lists their signature.
     fdir = VERIF / "corpus" / "C14-findings"
+    IDLE_DEL = "poll-stop-of-inactive-second-handle-unregisters-active-one"
+    def run_discipline_off(c, sig, expect, label):
+        """programs that need multi=1.  Only the narrow symptom of the kept finding is mapped to its signature (the
+        kernel DEL issued by a handle that is not the watched one: info['known_del']; resp. the expected monitor of
+        the EBADF finding); every other monitor failure - registry, nfds, callbacks - is reported under its own signature"""
+        r, il = check_case(ctx, exe, c)
+        ctx.count()
+        if isinstance(r, Bad):
+            if expect is not None and r.sig == expect:
+                ctx.violation(sig, r.what, {"ops": c}); return True
+            ctx.violation(r.sig, f"C14 ({label}): {r.what}", {"ops": shrink(ctx, exe, c, r.sig)})
+            return False
+        if r["known_del"]:
+            a, b, f = r["known_del"][0]
+            ctx.violation(IDLE_DEL, f"handle {a}, which is not the watched handle on descriptor {f}, issued EPOLL_CTL_DEL for it and removed "
+                          f"the kernel entry of the active handle {b}", {"ops": c})
+            ctx.notes["idle_del_programs"] = ctx.notes.get("idle_del_programs", 0) + 1
+        elif label.endswith(".txt"):
+            ctx.notes.setdefault("findings_not_reproduced", []).append(label)
+        else:
+            ctx.notes["discipline_off_programs_without_del"] = ctx.notes.get("discipline_off_programs_without_del", 0) + 1
+        iv = [l for l in il if not l.startswith("#")]
+        mv = ctx.driver(["iowatch"], "\n".join(model_input(c, il)) + "\n").splitlines()
+        if iv != mv and not any(x in l for l in c for x in ("sinit ", "sstart ", "sstop ", "sclose ")):
+            k = next((i for i in range(min(len(iv), len(mv))) if iv[i] != mv[i]), min(len(iv), len(mv)))
+            ctx.broken_correspondence("io watcher model vs src/unix/{core,linux,poll}.c (discipline off)",
+                                      f"line {k}: impl `{iv[k] if k < len(iv) else None}` model `{mv[k] if k < len(mv) else None}`; case {c}")
+            return False
+        ctx.validated()
+        return True
+    fgood = True
     for fname, sig, expect in FINDINGS:
-        if sig in ctx.known and (fdir / fname).exists():
+        if fgood and sig in ctx.known and (fdir / fname).exists():
             c = [l for l in (fdir / fname).read_text().splitlines() if l.strip()]
-            r, il = check_case(ctx, exe, c)
-            if isinstance(r, Bad) and r.sig == expect:
-                ctx.violation(sig, r.what, {"ops": c})
-            else:
-                ctx.notes.setdefault("findings_not_reproduced", []).append(sig)
+            fgood = run_discipline_off(c, sig, None if sig == IDLE_DEL else expect, fname)
+    if fgood and IDLE_DEL in ctx.known:
+        mrng = rng.fork()
+        for k in range(ctx.scale(60, 1500)):
+            if not run_discipline_off(gen_multi_case(mrng), IDLE_DEL, None, "two handles on one descriptor number"):
+                fgood = False; break
+    if not fgood: return
     total = ctx.scale(1200, 40000)
     done = 0
     while good and done < total and not ctx.violations:
